@@ -14,7 +14,7 @@ def trace3 : State → List Op → List (State × Res × State)
   | s, o :: os => (s, (step s o).2, (step s o).1) :: trace3 (step s o).1 os
 
 def showStep (p : State × Res × State) : String :=
-  showRes p.2.1 ++ "|" ++ showEvents (p.2.2.events.drop p.1.events.length) ++ "|" ++
+  showRes p.2.1 ++ "|" ++ showEvents (p.2.2.events.drop p.1.events.length ++ p.2.2.aevents.drop p.1.aevents.length) ++ "|" ++
     showPool p.2.2.mpool ++ "|" ++ showPool p.2.2.writers ++ "|" ++ showSocks p.2.2.socks
 
 def handle (fs : List String) : String :=
